@@ -148,11 +148,12 @@ Qed.
 Lemma wf_sig_ext (f g : string -> bool) sg : (forall t, f t = g t) -> wf_sig f sg = wf_sig g sg.
 Proof. intros H. unfold wf_sig. f_equal. apply forallb_ext8. intros [p t]. rewrite H. reflexivity. Qed.
 
-Theorem domain_roundtrip (num : numparser) (dpre deff : nat) (m : mdomain) :
-  wf_mdomain num dpre deff m = true ->
+Theorem domain_roundtrip_gen (num : numparser) (tyk ck : string -> bool) (dpre deff : nat) (m : mdomain) :
+  (forall t, type_known (d_types m) t = tyk t) -> (forall a, dmem (d_consts m) a = ck a) ->
+  wf_mdomain_gen num tyk ck dpre deff m = true ->
   parse_domain num (export_domain dpre deff m) = Ok (rr_domain num dpre deff m).
 Proof.
-  unfold wf_mdomain. intros H.
+  unfold wf_mdomain_gen. intros Hlt Hlc H.
   apply andb_true_iff in H. destruct H as [H Hacts]. apply andb_true_iff in H. destruct H as [H Hadup].
   apply andb_true_iff in H. destruct H as [H Hfuncs]. apply andb_true_iff in H. destruct H as [H Hpreds].
   apply andb_true_iff in H. destruct H as [Htypes Hconsts].
@@ -165,7 +166,8 @@ Proof.
   { unfold wf_consts in Hconsts. apply andb_true_iff in Hconsts. destruct Hconsts as [Ht _].
     apply negb_true_iff in Ht. apply has_dup_false_nodup. exact Ht. }
   pose proof (fun t => type_known_regroup tt t Httnd) as Htyk.
-  pose proof (fun a => regroup_dmem cs a Hcsnd) as Hck.
+  assert (Htyk' : forall t, type_known (regroup tt) t = tyk t) by (intros t; rewrite Htyk; apply Hlt).
+  assert (Hck : forall a, dmem (regroup cs) a = ck a) by (intros a; rewrite (regroup_dmem cs a Hcsnd); apply Hlc).
   pose proof (reserved_not_declared tt ps Hpreds) as Hres.
   unfold wf_preds in Hpreds. apply andb_true_iff in Hpreds. destruct Hpreds as [Hpdup Hpall].
   unfold wf_funcs in Hfuncs. apply andb_true_iff in Hfuncs. destruct Hfuncs as [Hfdup Hfall].
@@ -216,6 +218,11 @@ Proof.
       rewrite (functions_roundtrip (regroup tt) (type_known tt) Htyk fs [] Hfdup Hfall (fun _ _ H => H)).
       cbn [bind app]. reflexivity. }
   rewrite Hf. clear Hf.
-  rewrite (actions_roundtrip num dpre deff (type_known tt) (dmem cs) acts d4 Htyk Hck Hres Hadup Hacts (fun _ _ H => H)).
+  rewrite (actions_roundtrip num dpre deff tyk ck acts d4 Htyk' Hck Hres Hadup Hacts (fun _ _ H => H)).
   reflexivity.
 Qed.
+
+Theorem domain_roundtrip (num : numparser) (dpre deff : nat) (m : mdomain) :
+  wf_mdomain num dpre deff m = true ->
+  parse_domain num (export_domain dpre deff m) = Ok (rr_domain num dpre deff m).
+Proof. intros H. apply (domain_roundtrip_gen num _ _ dpre deff m (fun _ => eq_refl) (fun _ => eq_refl) H). Qed.
